@@ -89,7 +89,7 @@ func runC13(c *Check) {
 			n := 0
 			AllInstrs(fn, func(in ssa.Instruction) {
 				if st, ok := in.(*ssa.Store); ok {
-					if lit := FuncOfValue(firstOrigin(st.Val)); lit != nil && lit.Parent() == fn {
+					if lit := FuncOfValue(firstOrigin(st.Val)); lit != nil && (lit.Parent() == fn || (lit.Parent() == nil && lit.Pkg == fn.Pkg)) && lit.Signature.Results().Len() == 1 {
 						n++
 						c13AcceptAll(c, P, fn, lit)
 					}
